@@ -1400,6 +1400,15 @@ class InBodyPhase(Phase):
         # http://svn.whatwg.org/webapps/complete.html#adoptionAgency revision 7867
         # XXX Better parseError messages appreciated.
 
+        # Step 1: the current node is the element the end tag names and it
+        # is not in the list of active formatting elements
+        currentNode = self.tree.openElements[-1]
+        if (currentNode.name == token["name"] and
+                currentNode.namespace == self.tree.defaultNamespace and
+                currentNode not in self.tree.activeFormattingElements):
+            self.tree.openElements.pop()
+            return
+
         # Step 1
         outerLoopCounter = 0
 
